@@ -45,8 +45,11 @@ NEG = {
         ("costs-ends-minus-one", "Costs", cost_consts(N=3, CumMode="ends_minus_one"), ["PrefixDefinition", "BatchIndependent"], "Init", None),
     ],
     "C07": [("seeded-strict-removal-test", "SeededBinseg", bconsts("contains", N=5, L=5, K=2, RemoveTest="strict"),
-             ["GreedyCharacterisation", "Terminates", "NothingLeft"], "Init", None)],
-    "C09": [("circular-touching-counts-as-overlap", "SeededBinseg", bconsts("overlaps", RemoveTest="touch"), ["GreedyCharacterisation"], "Init", None)],
+             ["GreedyCharacterisation", "Terminates", "NothingLeft"], "Init", None),
+            ("seeded-weak-exceedance", "SeededBinseg", bconsts("contains", N=5, L=5, K=2, Exceed="weak"),
+             ["GreedyCharacterisation", "Terminates", "Supported"], "Init", None)],
+    "C09": [("circular-touching-counts-as-overlap", "SeededBinseg", bconsts("overlaps", RemoveTest="touch"), ["GreedyCharacterisation"], "Init", None),
+            ("circular-weak-exceedance", "SeededBinseg", bconsts("overlaps", Exceed="weak"), ["GreedyCharacterisation", "Terminates", "Supported"], "Init", None)],
     "C08": [("moving-window-short-left-window", "MovingWindow", mw_consts(N=6, B=1, LeftWindow="short"), ["ScoreIsDefinition", "Reversal"], "Init", None),
             ("moving-window-weak-exceedance", "MovingWindow", mw_consts(N=6, B=1, Exceed="weak"), ["WhereIsMaximalRuns", "PeakOfRun"], "Init", None)],
     "C10": [(f"lifecycle-{leak}", "Lifecycle", dict(MaxLen=3, Sharing="shared", Tunes="none", Leak=leak, Emit=False, NSlices=1, Slice=0, EmitLen=3),
